@@ -59,8 +59,12 @@ def gen_journal(rng):
             x = X.gen_half_unit(rng)
         elif r < 0.86:
             x = X.gen_two_commodity(rng)
-        elif r < 0.92:
+        elif r < 0.89:
             x = X.gen_lot(rng)
+        elif r < 0.93:
+            x = X.gen_cost_unbalanced(rng)
+        elif r < 0.96:
+            x = X.gen_cost_only(rng)
         else:
             x = X.add_null(rng, X.gen_balanced(rng, with_costs=False))
         x.date = '2020/%02d/%02d' % (rng.randrange(1, 13), rng.randrange(1, 29))
